@@ -1660,6 +1660,9 @@ impl<'a> World<'a> {
                     b[4..8].copy_from_slice(&wire::MAGIC);
                     let l = (b.len() - 20) as u16;
                     b[2..4].copy_from_slice(&l.to_be_bytes());
+                    if kv_has(kv, "len") {
+                        b[2..4].copy_from_slice(&(kv_u64(kv, "len", 0) as u16).to_be_bytes());
+                    }
                 }
                 self.ledger.stats.fault("inj_random_bytes");
                 self.do_recv(b, origin, "inj:random".into());
@@ -1862,7 +1865,16 @@ impl<'a> World<'a> {
                         rng.below(1 << 30),
                         // mostly small; sometimes up to the 64 KiB a datagram can carry
                         if rng.chance(1, 25) { rng.range(1000, 65535) } else { rng.below(120) },
-                        if rng.chance(1, 2) { " stunlike" } else { "" }
+                        if rng.chance(1, 2) {
+                            if rng.chance(1, 3) {
+                                // a well-formed header that announces a boundary length (16-bit limits, unaligned, zero)
+                                format!(" stunlike len={}", *rng.pick(&[0u64, 1, 3, 4, 0xFFEB, 0xFFEC, 0xFFED, 0xFFF0, 0xFFFB, 0xFFFC, 0xFFFD, 0xFFFF, 0x8000, 0x7FFC]))
+                            } else {
+                                " stunlike".to_string()
+                            }
+                        } else {
+                            String::new()
+                        }
                     ),
                     5 => format!("t={} kind=random seed={} n={}", at, rng.below(1 << 30), rng.below(30)),
                     6 => format!("t={} kind=timeout", at),
